@@ -73,11 +73,24 @@ def _mk_adv(kind):
 
 
 _ADV_CACHE = {}
+BASE = None         # "light": every harness that builds AnyNode trees builds LightNodeMixin trees instead (C18)
+
+
+class LightAny(anytree.LightNodeMixin):
+    """AnyNode's constructor interface on top of LightNodeMixin"""
+
+    def __init__(self, parent=None, children=None, **kwargs):
+        self.__dict__.update(kwargs)
+        self.parent = parent
+        if children:
+            self.children = children
 
 
 def adv(cls):
-    """the node class actually used: cls itself, or cls with the adversarial
-    special methods of the current kind in front of it in the MRO"""
+    """the node class actually used: cls itself (or its LightNodeMixin counterpart when BASE is "light"),
+    possibly with the adversarial special methods of the current kind in front of it in the MRO"""
+    if BASE == "light" and cls is anytree.AnyNode:
+        cls = LightAny
     if ADV is None:
         return cls
     key = (ADV, cls)
